@@ -40,7 +40,7 @@ namespace Skel
 def BruteForceProtector_IsBanned : List String := ["banMu.RLock", "banMu.RUnlock", "isExpired", "unbanIfExpired"]
 def BruteForceProtector_RecordFailure : List String := ["mu.Lock", "cleanupOldFailures", "mu.Unlock", "banIP", "banIP"]
 def BruteForceProtector_RecordSuccess : List String := ["mu.Lock", "mu.Unlock"]
-def BruteForceProtector_banIP : List String := ["banMu.Lock", "banMu.Unlock"]
+def BruteForceProtector_banIP : List String := ["banMu.Lock", "banMu.Unlock", "ExpiresAt.IsZero"]
 def BruteForceProtector_cleanup : List String := ["mu.Lock", "cleanupOldFailures", "mu.Unlock", "banMu.Lock", "ExpiresAt.IsZero", "now.After", "banMu.Unlock"]
 def BruteForceProtector_unbanIfExpired : List String := ["banMu.Lock", "banMu.Unlock", "isExpired"]
 def IPManager_IsAllowed : List String := ["mu.RLock", "mu.RUnlock", "isInList", "findInList", "isExpired", "removeExpiredFromBlacklist"]
